@@ -656,6 +656,11 @@ class DateTimeStamp(DateTime):
         r'(?P<tzinfo>Z|[+-](?:(?:0[0-9]|1[0-3]):[0-5][0-9]|14:00))$'
     )
 
+    def __init__(self, *args: Any, **kwargs: Any) -> None:
+        super().__init__(*args, **kwargs)
+        if self.tzinfo is None:
+            raise ValueError('xs:dateTimeStamp requires a timezone')
+
 
 class Date(AbstractDateTime):
     name = 'date'
